@@ -52,13 +52,21 @@ func VerifC03RecvOutcome() {
 	}
 	rt.Assert("R2-callback-at-most-once", ncb <= 1)
 
-	if rt.BytesEq(ack, hashOf(errAck)) {
+	// the handler declares the callback failed exactly when the EVM call errored, reverted, or a post-tx hook failed
+	callbackFailed := w.evm.failures+w.evm.hookFails > 0
+	if callbackFailed {
 		rt.Reach("refund-path")
+		rt.Assert("R1-failed-callback-gets-the-error-ack", rt.BytesEq(ack, hashOf(errAck)))
 		rt.Known("H1-callback-effects-survive-error-ack", committed != 0)
 		rt.Assert("R1-error-ack-leaves-no-effect", committed == 0)
 	} else {
 		rt.Reach("delivered-path")
 		rt.Assert("R2-delivered-effects-committed-once", committed == 1 && ncb == 1)
+		var result packettypes.Result
+		rt.Assume(len(w.evm.rets) == 1 && packetcontract.PacketContract.ABI.UnpackIntoInterface(&result, "onRecvPacket", w.evm.rets[0]) == nil)
+		resAck, e2 := packettypes.NewAcknowledgement(result.Code, result.Result, result.Message, relayer, p.FeeOption).ABIPack()
+		rt.Assume(e2 == nil)
+		rt.Assert("R2-ack-carries-the-contract's-result", rt.BytesEq(ack, hashOf(resAck)))
 	}
 }
 
